@@ -32,7 +32,7 @@ def trial(args):
 def main():
     tier=sys.argv[1]
     items=[]
-    args=sys.argv[2:] or sorted(os.listdir(f'{ROOT}/seeded'))
+    args=sys.argv[2:] or sorted(d for d in os.listdir(f'{ROOT}/seeded') if os.path.isdir(f'{ROOT}/seeded/{d}'))
     for a in args:
         if ':' in a: n,ps=a.split(':'); ps=ps.split(',')
         else: n=a; ps=[a.split('_')[0]]
